@@ -58,9 +58,30 @@ func c10Run(w *W) {
 	// peers
 	var peerSocks []mangos.Socket
 	var msgPeers []*MsgPipe
+	chatty := tran == "msg" && w.Choose(simrt.SShape, 2) == 0
+	w.SetShape("chatty_peers", chatty)
 	for i := 0; i < npeers; i++ {
 		if tran == "msg" {
-			if p := mn.Connect(laddr); p != nil {
+			var p *MsgPipe
+			if chatty {
+				// peers that answer whatever is sent to them, several times, with
+				// the same header (the current request / survey id): replies keep
+				// arriving while the close under test runs
+				p = mn.ConnectWith(laddr, func(p *MsgPipe) {
+					p.OnSend = func(m WireMsg) {
+						raw := m.Bytes()
+						if len(raw) < 4 {
+							return
+						}
+						for k := 0; k < 3; k++ {
+							p.Inject(append(append([]byte(nil), raw[:4]...), fmt.Sprintf("answer%d", k)...))
+						}
+					}
+				})
+			} else {
+				p = mn.Connect(laddr)
+			}
+			if p != nil {
 				msgPeers = append(msgPeers, p)
 			}
 			continue
@@ -159,6 +180,32 @@ func c10Run(w *W) {
 		}
 		fl = append(fl, inflight{w.Do(fmt.Sprintf("%s#%d", label, i), fn), onCtx})
 	}
+	// the socket dials a peer that accepts but sends its SP header only after
+	// the close under test
+	var lateRelease *simrt.Event
+	var lateConn *NetConn
+	lateAccepted := false
+	if stall && what == "socket" && w.Choose(simrt.SProg, 2) == 0 {
+		haddr := w.Addr(tran)
+		if hl, err := nt.Listen(strings.TrimPrefix(haddr, tran+"://")); err == nil {
+			lateRelease = w.NewEvent()
+			w.Go("late peer", func() {
+				c, err := hl.AcceptSim()
+				if err != nil {
+					return
+				}
+				lateConn, lateAccepted = c, true
+				lateRelease.Wait(time.Hour)
+				c.Write(wcHeader(protoOf(peerKind[kind])))
+				wcReadHeader(c)
+			})
+			w.OnCleanup(func() { hl.Close() })
+			fl = append(fl, inflight{w.Do("DialOptions(late peer)", func() (interface{}, error) {
+				return nil, s.DialOptions(haddr, map[string]interface{}{mangos.OptionDialAsynch: true, mangos.OptionReconnectTime: time.Hour})
+			}), false})
+			w.Fault("hs-stall")
+		}
+	}
 	// endpoint creation racing the close: NewDialer / NewListener apply their
 	// options in several locked steps, Dial and Listen start background work;
 	// a Close landing anywhere inside must still leave nothing behind
@@ -200,6 +247,20 @@ func c10Run(w *W) {
 		w.Sleep(time.Duration(w.Choose(simrt.SProg, 120)) * time.Millisecond)
 	}
 
+	if chatty {
+		stopChat := false
+		defer func() { stopChat = true }()
+		for i, p := range msgPeers {
+			i, p := i, p
+			w.Go("chatty peer", func() {
+				for n := 0; n < 40 && !stopChat && p.Open(); n++ {
+					p.Inject(inbound(kind, uint32(n+1), fmt.Sprintf("chat%d-%d", i, n)))
+					simrt.Sleep(time.Duration(50+37*n%200) * time.Microsecond)
+				}
+			})
+		}
+		w.Probe("traffic-arrives-during-close")
+	}
 	// the close under test
 	w.Op("Close %s (kind %s, %s, %d peers, %d stallers, %d calls in flight)", what, kind, tran, npeers, stallers, nfl)
 	w.Fault("api-race")
@@ -350,6 +411,15 @@ func c10Run(w *W) {
 		}
 		w.Settle()
 	}
+	// a dialled connection whose handshake was pending when the socket was
+	// closed completes now: the closed socket must not take it in
+	if lateRelease != nil {
+		lateRelease.Set()
+		w.Settle()
+		if lateAccepted {
+			w.Probe("handshake-completes-after-close")
+		}
+	}
 	// shut everything down; the peers stay silent; run the clock
 	for _, x := range all {
 		x := x
@@ -392,7 +462,7 @@ func c10Run(w *W) {
 				isStaller = true
 			}
 		}
-		if isStaller {
+		if isStaller || c == lateConn {
 			continue
 		}
 		c.mu.Lock()
